@@ -225,16 +225,21 @@ class Ctx:
     def finish(self, level="model_checking", exhaustive=None):
         kf = load_known()
         mine = [k for k in kf.get("findings", []) if k["property"] == self.pid]
-        keys = {k["key"]: k for k in mine}
+        keys = {k["key"]: k for k in mine if "key" in k}
+        prefixes = [k for k in mine if "key_prefix" in k]
         unlisted = []
         seen_known = {}
         for v in self.violations:
             if v["key"] in keys:
-                seen_known.setdefault(v["key"], v)
+                seen_known.setdefault(v["key"], (keys[v["key"]], v))
+                continue
+            pf = next((k for k in prefixes if v["key"].startswith(k["key_prefix"])), None)
+            if pf is not None:
+                seen_known.setdefault(pf["key_prefix"] + "*", (pf, v))
             else:
                 unlisted.append(v)
-        for k, v in seen_known.items():
-            print("KNOWN-FINDING: property=%s %s (%s)" % (self.pid, k, keys[k].get("what", v["what"])))
+        for k, (entry, v) in seen_known.items():
+            print("KNOWN-FINDING: property=%s %s (%s)" % (self.pid, k, entry.get("what", v["what"])))
         cov = self.cov
         if exhaustive is not None:
             cov["exhaustive"] = exhaustive
